@@ -394,6 +394,17 @@ func runReal(c *Case) (rr realRun) {
 			}
 		}
 	}
+	// addresses whose storage was written through the current handle since its last barrier (Delete), by revision:
+	// at Stage such an account, if not empty, must get an explicit (possibly empty) storage root
+	touched := map[int]bool{}
+	touchedAt := map[int]map[int]bool{}
+	cloneSet := func(m map[int]bool) map[int]bool {
+		o := map[int]bool{}
+		for k := range m {
+			o[k] = true
+		}
+		return o
+	}
 	for _, op := range c.Ops {
 		so := stepObs{text: "."}
 		switch op.K {
@@ -421,12 +432,16 @@ func runReal(c *Case) (rr realRun) {
 			}
 		case "sto":
 			st.SetStorage(c.addr(op.A), c.key(op.S), thor.BytesToBytes32(unhex(op.V)))
+			touched[op.A] = true
 		case "raw":
 			st.SetRawStorage(c.addr(op.A), c.key(op.S), unhex(op.V))
+			touched[op.A] = true
 		case "del":
 			st.Delete(c.addr(op.A))
+			delete(touched, op.A)
 		case "cp":
 			rev := st.NewCheckpoint()
+			touchedAt[rev] = cloneSet(touched)
 			so.text = "cp=" + strconv.Itoa(rev)
 			sw, err := sweep(c, st)
 			if err != nil {
@@ -438,6 +453,9 @@ func runReal(c *Case) (rr realRun) {
 		case "rev":
 			st.RevertTo(op.N)
 			if op.N < depth {
+				if snap, ok := touchedAt[op.N]; ok {
+					touched = cloneSet(snap)
+				}
 				depth = op.N
 				sw, err := sweep(c, st)
 				if err != nil {
@@ -478,6 +496,22 @@ func runReal(c *Case) (rr realRun) {
 			if f := co.property(); f != "" {
 				fail(f)
 			}
+			// an account whose storage was written (and not wiped by Delete since) keeps an explicit, possibly empty, storage root
+			if co.err == "" {
+				accFields := strings.Fields(strings.SplitN(before, " / ", 2)[0])
+				for ai := range touched {
+					f := strings.Split(accFields[ai], ",")
+					if f[0] == "0" && f[1] == "0" && f[2] == "-" && f[3] == "-" {
+						continue // empty at Stage: dropped with its storage
+					}
+					want := triesim.PathString(triesim.Nibbles(thor.Blake2b(unhex(c.Addrs[ai])).Bytes())) + "t"
+					for _, a := range co.accts {
+						if a.key == want && len(a.acc.StorageRoot) == 0 {
+							fail(fmt.Sprintf("explicit storage root missing: account #%d is not empty and its storage was written before Stage, but the committed account has no storage root", ai))
+						}
+					}
+				}
+			}
 			// re-opened reads = reads before commit for existing accounts, zero for the others
 			ns := stater.NewState(root)
 			after, err := sweep(c, ns)
@@ -493,6 +527,7 @@ func runReal(c *Case) (rr realRun) {
 			if op.Reopen {
 				st = ns
 				cpSweeps = map[int]string{}
+				touched, touchedAt = map[int]bool{}, map[int]map[int]bool{}
 				depth = 1
 				newReader(len(roots) - 1)
 			}
@@ -506,6 +541,7 @@ func runReal(c *Case) (rr realRun) {
 		case "open":
 			st = stater.NewState(roots[op.N])
 			cpSweeps = map[int]string{}
+			touched, touchedAt = map[int]bool{}, map[int]map[int]bool{}
 			depth = 1
 			newReader(op.N)
 		case "obs":
@@ -927,9 +963,41 @@ func genSharedCase(r *hx.Rand) *Case {
 	return c
 }
 
+// genWideCase: one Stage creates the storage of 260-400 fresh accounts (storage-trie creation counter beyond one byte),
+// commit, re-open, read every slot back; then a second round touching a few of them at a high conflict number.
+func genWideCase(r *hx.Rand) *Case {
+	c := &Case{Cached: r.Bool(), CacheTTL: 32, QBT: 1000, QStop: 2000}
+	na := r.Range(260, 400)
+	for i := 0; i < na; i++ {
+		c.Addrs = append(c.Addrs, hex.EncodeToString(r.Bytes(20)))
+	}
+	c.Keys = []string{hex.EncodeToString(r.Bytes(32)), hex.EncodeToString(append(make([]byte, 31), 1))}
+	for i := 0; i < na; i++ {
+		c.Pairs = append(c.Pairs, [2]int{i, i % 2})
+	}
+	emit := func(op Op) { c.Ops = append(c.Ops, op) }
+	for i := 0; i < na; i++ {
+		emit(Op{K: "bal", A: i, V: hex.EncodeToString(r.Bytes(r.Range(1, 6)))})
+		emit(Op{K: "sto", A: i, S: i % 2, V: hex.EncodeToString(append(make([]byte, 24), r.Bytes(8)...))})
+	}
+	emit(Op{K: "obs"})
+	minor := uint32([]int{0, 0, 130, 260}[r.Intn(4)])
+	emit(Op{K: "commit", Major: 1, Minor: minor, Reopen: true})
+	emit(Op{K: "obs"})
+	for j := 0; j < 5; j++ {
+		emit(Op{K: "sto", A: r.Intn(na), S: r.Intn(2), V: hex.EncodeToString(append(make([]byte, 28), r.Bytes(4)...))})
+	}
+	emit(Op{K: "commit", Major: 2, Minor: uint32(r.Intn(2) * 200), Reopen: true})
+	emit(Op{K: "obs"})
+	return c
+}
+
 func genCase(r *hx.Rand, idx int) *Case {
 	if idx%5 == 3 {
 		return genSharedCase(r)
+	}
+	if idx%600 == 7 {
+		return genWideCase(r)
 	}
 	c := &Case{}
 	large := idx%5 == 4
@@ -1059,6 +1127,9 @@ func genCase(r *hx.Rand, idx int) *Case {
 			if r.Chance(1, 5) {
 				major = curMajor + uint32(r.Range(2, 300))
 			}
+			if _, seen := usedMinor[major]; !seen && r.Chance(1, 4) {
+				usedMinor[major] = uint32([]int{127, 128, 255, 256, 300, 70000}[r.Intn(6)]) // conflict numbers around the byte / varint boundaries
+			}
 			minor := usedMinor[major]
 			usedMinor[major]++
 			reopen := !r.Chance(1, 4)
@@ -1130,7 +1201,7 @@ func shrink(c *Case, bad func(*Case) bool) *Case {
 func fix(c *Case) {
 	var out []Op
 	commits, depth := 0, 1
-	used := map[uint32]uint32{}
+	used := map[[2]uint32]bool{}
 	for _, op := range c.Ops {
 		switch op.K {
 		case "open":
@@ -1146,8 +1217,10 @@ func fix(c *Case) {
 		case "cp":
 			depth++
 		case "commit":
-			op.Minor = used[op.Major]
-			used[op.Major]++
+			for used[[2]uint32{op.Major, op.Minor}] {
+				op.Minor++
+			}
+			used[[2]uint32{op.Major, op.Minor}] = true
 			commits++
 			if op.Reopen {
 				depth = 1
